@@ -116,6 +116,7 @@ func c06Range(args []string, n int) (int, int) {
 
 func c06RenderWorker(args []string) {
 	c06LimitMemory()
+	c06InstallUserCode()
 	var in c06RenderInput
 	c06Load(args[0], &in)
 	start, end := c06Range(args, len(in.Cases))
@@ -773,6 +774,7 @@ type c06Plan struct {
 	hasJSON bool
 	nontriv bool
 	depth   int // known call depth of the run + 1 (0 = unknown): recursion plans
+	user    bool // uses the functions / directives of c06InstallUserCode: compared with the model op c06_render_user
 }
 
 func runC06(e *env) {
@@ -1015,6 +1017,7 @@ func c06Enumerations(e *env) []c06Plan {
 	plans = append(plans, c06EnumBundles("enum-floats", c06FloatBodies(), 40)...)
 	plans = append(plans, c06SameNamePlans()...)
 	plans = append(plans, c06JsonPlans()...)
+	plans = append(plans, c06UserPlans()...)
 	// duplicate template names: the ledger's witness, both file orders, error in the long and in the short file
 	long := "{namespace a}\n" + strings.Repeat("// padding padding padding\n", 10) + "/** */\n{template .t}\n{1 < 'a'}\n{/template}\n"
 	short := "{namespace a}\n/** */\n{template .t}\nx{1 % 0}\n{/template}\n"
@@ -1158,7 +1161,11 @@ func c06RunRenderPlans(e *env, plans []c06Plan, perCase time.Duration) {
 			cl = "#" + strconv.Itoa(p.c.FailAt-1)
 		}
 		// the extended model (Model/InterpExt.v: escapeJsString, json and round with digits inside the model)
-		reqs = append(reqs, strings.Join([]string{"render_x", "c06", sx(p.c.Template), c06Fuel, cl, "none", "-", ij, ";", d}, " "))
+		op := "render_x"
+		if p.user {
+			op = "c06_render_user"
+		}
+		reqs = append(reqs, strings.Join([]string{op, "c06", sx(p.c.Template), c06Fuel, cl, "none", "-", ij, ";", d}, " "))
 		if p.depth > 0 && p.c.FailAt == 0 {
 			// the quantitative bound: fuel = reg_height * (d+1), the d-capped and the (d-1)-capped walk
 			depthIx[i] = len(reqs)
@@ -1306,6 +1313,7 @@ func c06ExprTexts(e *env) []c06Expr {
 	add("ledger", "1 < 'a'")
 	add("ledger", "-'x'")
 	c06ExtraExprs(e, add)
+	c06RangeGrid(add)
 	// random closed expressions from the program grammar with the ill-typed hooks
 	g := &progGen{r: e.rng, o: progOpts{depth: 3, illTyped: 20, exprHook: c06ExprHook}, feats: map[string]int{}}
 	for i := 0; i < 150*e.scale; i++ {
